@@ -486,6 +486,13 @@ def mag_slots(ans):
     return {s[0] + 2 for s in ans["slots"] if not s[1]}
 
 
+def accumulates(case, nz, op):
+    """a depth reduction that adds more than two samples of values that are not small dyadic numbers: numpy adds them one
+    after the other along the depth axis, so the result carries rounding errors even when every coordinate is exact"""
+    return (case.get("dz") is not None and nz is not None and nz > 2 and op in ("sum", "mean", "nansum", "nanmean")
+            and not (case.get("gen") or {}).get("exact_wanted", False))
+
+
 def compare_model(case, obs, impl, ans, lane, skip_near=True):
     """impl vs model as coded. Returns (difference or None, number of near-tie pixels skipped)."""
     if "raised" in impl or "err" in ans:
@@ -529,7 +536,8 @@ def compare_model(case, obs, impl, ans, lane, skip_near=True):
                     return f"layer {l} pixel {pix}: impl {a}, model NaN (unmasked)", skipped
                 continue
             mf = Fraction(m)
-            loose = (not exact) or (l in mags and not ans.get("magsExact"))
+            rop = (row_ops(case)[l] if l < len(row_ops(case)) else (case.get("op") or "sum"))
+            loose = (not exact) or (l in mags and not ans.get("magsExact")) or accumulates(case, ans.get("nz"), rop)
             ok = eq_tol(a, mf, scales[l] * zfacs[l]) if loose else eq_exact(a, mf)
             if not ok:
                 return f"layer {l} pixel {pix} (j={pix // len(impl['x'])}, i={pix % len(impl['x'])}): impl {a!r}, model {float(mf)!r}", skipped
@@ -573,7 +581,7 @@ def compare_spec(case, obs, impl, ans, lane):
             a = got[pix]
             op = rops[l] if l < len(rops) else (case.get("op") or "sum")
             zfac = float(Fraction(spec["zsp"])) * nz if (thick and op in ("sum", "nansum")) else 1.0
-            loose = (not exact) or (l in mags and not ans.get("magsExact"))
+            loose = (not exact) or (l in mags and not ans.get("magsExact")) or accumulates(case, nz, op)
             if nz == 1 and not (thick and op in ("sum", "nansum", "nanmean", "mean")):
                 acc = spec["accept"][pix]
                 if not acc:
